@@ -262,6 +262,21 @@ def attr_truth(attr, value):
             return value
         if isinstance(e, ast.Name) and e.id == attr:
             return value
+        # the truth of a container is the truth of its length
+        if isinstance(e, ast.Call) and isinstance(e.func, ast.Name) and e.func.id == 'len' and \
+                len(e.args) == 1 and not e.keywords:
+            return assume(e.args[0])
+        if isinstance(e, ast.Compare) and len(e.ops) == 1 and isinstance(e.left, ast.Call) and \
+                isinstance(e.left.func, ast.Name) and e.left.func.id == 'len' and \
+                len(e.left.args) == 1:
+            inner = assume(e.left.args[0])
+            k = astq.const_value(e.comparators[0], None)
+            op = type(e.ops[0])
+            if inner is not None:
+                if (op, k) in ((ast.NotEq, 0), (ast.Gt, 0), (ast.GtE, 1)):
+                    return inner
+                if (op, k) in ((ast.Eq, 0), (ast.LtE, 0), (ast.Lt, 1)):
+                    return not inner
         return None
     return assume
 
